@@ -8,6 +8,8 @@ use std::time::Instant;
 
 pub const VERIF_DIR: &str = "/verif";
 pub const DEFAULT_SEED: u64 = 0x5EED_C0DE;
+/// multiplier applied to every sub-check's base quick count
+pub const QUICK_SCALE: u32 = 4;
 
 pub struct RunOpts {
     pub tier: String,
@@ -91,7 +93,8 @@ pub fn run_property(p: &Property, opts: &RunOpts) -> RunResult {
                 }
                 let (i, shard) = jobs[j];
                 let sc = subs[i];
-                let base = if thorough { sc.thorough } else { sc.quick };
+                // quick = fixed work, a few seconds per property; thorough = the per-sub-check deep counts
+                let base = if thorough { sc.thorough } else { sc.quick.saturating_mul(QUICK_SCALE) };
                 let cases = (((base as f64) * opts.scale / shards as f64).ceil() as u32).max(1);
                 let rep = run_subcheck(p.id, sc, opts.seed, shard, cases, &findings);
                 results.lock().unwrap().push((i, rep));
